@@ -104,6 +104,12 @@ CHECKS = {
         text='Two names (one with . and -) x six values (option, double-quoted blank, single-quoted word, self reference, reference to the other alias, pipeline): every define / redefine (both quote kinds) / unalias is executed from every table state (quick: BFS depth 2 reaching all 49 states; thorough: fixpoint); after each operation the uses at line start, after |, after ;, after && and as a non-first word are executed and must equal the substituted line run without aliases (records and status; self/mutual references must not loop), the `alias` listing fed back to a fresh shell must recreate the same table and the same behaviour, `alias NAME` prints one definition, `unalias NAME` removes exactly NAME.',
         note='Names and values are the bound; record order inside a pipeline and the order of the listing are not compared.',
         ref='DESIGN.md §4 C17'),
+    'C18': dict(
+        engine='E2 explicit histories of history operations across shell processes + E5 pty sessions, real binary',
+        technique='exhaustive enumeration of all operation sequences up to a depth x process splits x directory names on the real binary with an independent sqlite reader, plus exhaustive typed-line sequences on a pseudo-terminal',
+        text='All sequences of up to 2 (thorough 3) operations over history add (8 texts with quotes, percent, underscore, backslash, semicolon/comment, multi-byte), list, search (5 patterns), -p and delete, each in its own shell process on one database created by the shell itself (interactive start on a pty), in directories named plain / with a quote / with a percent sign; the rows read back with python sqlite3 must equal the reference list (byte-equal texts, submission order, delete removes exactly the named row) and no listing / search / add may report an error. Interactive: all sequences of up to 3 typed lines over {command, same with leading blank, other command, repeat} with HISTORY_DELETE_DUPS 0 and 1, also as seen by a later shell process.',
+        note='Texts, patterns and directory names are the bound; add operations carry explicit increasing time stamps.',
+        ref='DESIGN.md §4 C18'),
     'C19': dict(
         engine='E1 bounded-exhaustive input sweep (in-process) + real binary',
         technique='bounded-exhaustive enumeration of all expression trees / all strings over the arithmetic alphabet against an exact reference evaluator (differential oracle, no sampling)',
